@@ -87,6 +87,22 @@ def main():
                     res["ran"].append(f"cargo test --offline {flags} --test demo   (tests/demo.rs = the demonstration): fails with the patch, passes without")
                     break
             res.setdefault("demo_attempts", []).append(entry)
+    runsh = os.path.join(sdir, "demo", "run.sh")
+    if res["demo"] is None and os.path.exists(runsh):
+        # demonstration is a separate small crate/program: `demo/run.sh <crate dir>` exits non-zero when it fails
+        rc, out = sh(f"bash {runsh} {wt} 2>&1", os.path.join(sdir, "demo"))
+        entry = {"config": "demo/run.sh", "with_patch_rc": rc, "with_patch_compiled": True, "with_patch_tail": out[-1200:]}
+        if rc != 0:
+            sh(f"git apply -R {patch}", wt)
+            rc0, out0 = sh(f"bash {runsh} {wt} 2>&1", os.path.join(sdir, "demo"))
+            sh(f"git apply {patch}", wt)
+            entry.update({"without_patch_rc": rc0, "without_patch_tail": out0[-1200:]})
+            if rc0 == 0:
+                entry["discriminates"] = True
+                res["demo"] = entry
+                res["ran"].append("bash demo/run.sh <worktree>   (separate demonstration crate): fails with the patch, passes without")
+        if res["demo"] is None:
+            res.setdefault("demo_attempts", []).append(entry)
     clean(wt)
     res["confirmed"] = bool(res["applies"] and res["builds"]["debug"] and res["builds"]["release"]
                             and res["suite_with_patch"]["rc"] == 0 and (res["suite_with_patch"]["unit_passed_failed"] or (0, 1))[1] == 0
